@@ -96,6 +96,7 @@ func (b *Batch) Put(key []byte, value []byte) error {
 		// 如果缓存命中则直接修改缓存
 		logRecord.Key = key
 		logRecord.Value = value
+		logRecord.Type = datafile.LogRecordNormal
 		b.cachedDataSize += newSize - oldSize
 	}
 	return nil
